@@ -453,6 +453,16 @@ def m_abs_diff(m, st, ctx, args, span):
     return Int(a.w, False, E("abs_diff_s" if a.signed else "abs_diff", (a.e, b.e), a.w))
 
 
+@model("core::num::<impl isize>::unsigned_abs", "core::num::<impl i64>::unsigned_abs", "core::num::<impl i32>::unsigned_abs",
+       "core::num::<impl i128>::unsigned_abs", "core::num::<impl isize>::abs", "core::num::<impl i64>::abs", "core::num::<impl i32>::abs",
+       "core::num::<impl isize>::wrapping_abs", "core::num::<impl i64>::wrapping_abs")
+def m_abs(m, st, ctx, args, span):
+    a = args[0]
+    if a.is_const():
+        return int_const(abs(a.sval()), a.w)
+    return Int(a.w, ctx.name.split("::")[-1] != "unsigned_abs", E("abs_s", (a.e,), a.w))
+
+
 @model("core::num::<impl u64>::saturating_sub", "core::num::<impl usize>::saturating_sub", "core::num::<impl u32>::saturating_sub")
 def m_saturating_sub(m, st, ctx, args, span):
     a, b = args
